@@ -24,7 +24,12 @@ func (c04) Level() string { return "exploration" }
 func (c04) Rule() string {
 	return "exhaustive: node type with two pointer slots, every assignment of each slot in {nil, n0..n(k-1)} for k = 1..4 nodes (all nodes reachable from n0; quick: k <= 3 plus a sample of k = 4), each combined with every filler placed in front of the shared pointers {none, empty map, non-empty map, empty slice, non-empty slice, timestamp, string, byte slice, nested struct, named byte-slice type} and wrapped in a holder that ends with probe references to an early and a late node; random: graphs up to 200 nodes over node types with pointer, []*N, map[string]*N and *[]*N fields, the same slice/map in sibling fields, two slices of one array with different lengths. Oracle: encode returns within 5 CPU-seconds; the reference decoder's graph is bisimilar to zoo.Denote(g) with identity agreement on struct pointers (every x51 k resolves, under the document's numbering, to the node the Go pointer pointed to); the decoded Go graph is Equiv and has the same sharing partition (SameSharing); the reference encoder's rendering of Denote(g) decodes to the same graph. Non-trivial = graph has a shared or cyclic pointer; distinct by canonical form."
 }
-func (c04) ProcOpts() Proc { return Proc{RlimitAS: 4 << 30, MaxStack: 64 << 20} }
+
+// "encoding terminates": 60 CPU-seconds inside one journalled graph (bound per encode call: 5) is a call
+// that does not return - a violation, decided on CPU time
+func (c04) ProcOpts() Proc {
+	return Proc{RlimitAS: 4 << 30, MaxStack: 64 << 20, StallSec: 90, StallCPU: 60}
+}
 func (c04) Exhaustive(tier string) (bool, string) {
 	if tier == "thorough" {
 		return true, "every edge assignment of 1..4 two-slot nodes x 10 fillers"
